@@ -32,7 +32,15 @@ META = {
                   "discrete maximum principle (positive weights - automatic for uniform weights -, every interior vertex "
                   "linked to the border: every interior vertex lies in every closed half-plane containing the border "
                   "positions, i.e. in their convex hull; the combinatorial premises are reflected from the boolean test "
-                  "disk_links_b, which every checked case must pass). PARTIAL: the fold-free clause is Tutte/Floater's theorem, stated but NOT proved; "
+                  "disk_links_b, which every checked case must pass). Round 7, unconditional forms: C17_max_principle_disk - "
+                  "the same conclusion under Floater's own hypothesis (the TOTAL weight of every edge at an interior vertex is "
+                  "positive; single cotangent contributions may be negative) with the premises 'every face vertex is listed' "
+                  "and 'every interior vertex has an edge path to the border' instead of any boolean guard (uniform weights: "
+                  "C17_max_principle_uniform_disk, no weight hypothesis); C17_strict_interior - an interior vertex lies "
+                  "STRICTLY inside every supporting half-plane that a border vertex it reaches is strictly inside of; "
+                  "C17_border_edge_triangles - w.r.t. every edge (b1,b2) of a convex counter-clockwise border polygon every "
+                  "such interior vertex is strictly on the polygon's side, i.e. triangles standing on a border edge are "
+                  "strictly positively oriented (first geometric step of Tutte/Floater). PARTIAL: the fold-free clause is Tutte/Floater's theorem, stated but NOT proved; "
                   "what each run establishes instead, on its generated disks only, is kernel-checked evidence: an exact "
                   "rational solution of the model's system is verified (C17_fold_free_checker_soundness_partial is ONLY the "
                   "soundness of this per-case checker: an accepted certificate IS a solution "
@@ -227,6 +235,21 @@ def gen_move(rng, case):
     return []
 
 
+def gen_non_disk(rng, n):
+    """surfaces with V-E+F <> 1 (every kind in turn): closed ones, several components, and - the ones a sloppy gate lets
+    through - surfaces WITH a border and chi < 1 (punctured torus: one border cycle; annulus: two), in every boundary
+    mode incl. a custom array with one row per border vertex"""
+    k, v, f = G.non_disk(rng, G.NON_DISK_KINDS[n % len(G.NON_DISK_KINDS)])
+    case = {"verts": v, "faces": f, "mode": rng.choice(["circle", "square"]), "cotan": rng.random() < 0.3,
+            "kind": k, "disk": False}
+    cyc = [x for c in G.border_cycle(f) if c for x in c]
+    if len(cyc) >= 3 and len(set(cyc)) == len(cyc):
+        case["cycle"] = cyc
+        case["poly"] = G.convex_polygon(rng, len(cyc))
+        case["mode"] = "custom" if (n // len(G.NON_DISK_KINDS)) % 2 == 1 else MODES[n % 3]
+    return case
+
+
 def gen_cases(ctx):
     rng = ctx.rng
     quick = ctx.tier == "quick"
@@ -241,10 +264,8 @@ def gen_cases(ctx):
             cases.append(gen_disk_case(rng, small=True))
         for _ in range(12):
             cases.append(gen_sequence_case(rng))
-        for _ in range(8):
-            k, v, f = G.non_disk(rng)
-            cases.append({"verts": v, "faces": f, "mode": rng.choice(["circle", "square"]), "cotan": rng.random() < 0.3,
-                          "kind": k, "disk": False})
+        for n in range(10):
+            cases.append(gen_non_disk(rng, n))
         return cases
     for rd in range(18):
         for nb in range(3, 41):
@@ -255,10 +276,8 @@ def gen_cases(ctx):
             cases.append(gen_disk_case(rng))
         for _ in range(24):
             cases.append(gen_sequence_case(rng))
-        for _ in range(16):
-            k, v, f = G.non_disk(rng)
-            cases.append({"verts": v, "faces": f, "mode": rng.choice(["circle", "square"]), "cotan": rng.random() < 0.3,
-                          "kind": k, "disk": False})
+        for n in range(16):
+            cases.append(gen_non_disk(rng, n))
     return cases
 
 
@@ -613,6 +632,9 @@ def run(ctx):
     dropped = skipped_exact = 0
     for ui, (c, o, ci, step) in enumerate(units):
         fl = O.oracle(c, o)
+        if step is not None and o.get("late") and o.get("status") == "ok":
+            fl = fl + late_failures(c, o)
+            ctx.count("sequence: an earlier embedding's result object changed when a later embedding ran")
         for key, msg in fl:
             if step is not None:
                 key = seq_key(c, key)
@@ -744,6 +766,19 @@ def run(ctx):
                     % (i, ci, step, c["mode"], c["cotan"], len(c["verts"]), len(c["faces"]), o.get("status")))
 
 
+def late_failures(view, ob):
+    """the result object of a finished embedding, read again after later embeddings of the same mesh: it must still be
+    an embedding for ITS configuration (judged by the same oracle, not by comparison with the earlier reading)"""
+    late = ob["late"]
+    if "error" in late:
+        return [("late-result", "the result of this embedding can no longer be read after a later embedding: " + late["error"])]
+    ob2 = dict(ob, uv_vertex=late["uv_vertex"], uv_corner=late["uv_corner"])
+    ob2.pop("late", None)
+    return [("late-result", "read again after a later embedding of the same mesh, this embedding's result no longer satisfies the property: " + m)
+            for k, m in O.oracle(view, ob2) if k not in ("outputs",)][:1] + \
+           [("late-result", "read again after a later embedding of the same mesh: " + m) for k, m in O.oracle(view, ob2) if k == "outputs"][:1]
+
+
 def seq_views(case):
     """per step: (the case as that step sees it - mode, weights, call form, vertices after the moves so far -,
     whether a persistent cotan/angles attribute computed BEFORE a later vertex move is still on the mesh)"""
@@ -786,7 +821,10 @@ def seq_failures(case, ob):
     for k, (view, stale) in enumerate(seq_views(case)):
         view["_stale_cache"] = stale
         o = steps[k] if k < len(steps) else {"status": "error:no observation for this step"}
-        for key, msg in O.oracle(view, o):
+        fl = O.oracle(view, o)
+        if o.get("late") and o.get("status") == "ok":
+            fl = fl + late_failures(view, o)
+        for key, msg in fl:
             out.append((k, seq_key(view, key), msg))
     return out
 
